@@ -368,7 +368,7 @@ func (u *Unit) step(st *State, fr *Frame, instr ssa.Instruction) {
 			return
 		}
 		np := PtrV{Nil: TFalse, Cell: p.Cell, Path: append(append([]int(nil), p.Path...), in.Field), Elem: ft}
-		if u.specMode > 0 {
+		if u.specMode > 0 && !u.noNilMerge {
 			np.Nil = p.Nil // totality: a field of a nil struct pointer reads as zero
 		}
 		fr.regs[in] = np
@@ -461,7 +461,7 @@ func (u *Unit) load(st *State, fr *Frame, pos token.Pos, p PtrV, t types.Type) V
 }
 
 func (u *Unit) loadNoCheck(st *State, p PtrV, t types.Type) Val {
-	if u.specMode > 0 && p.Cell != nil && p.Blk == nil && p.ElemIdx == nil && !(p.Nil.IsBool && !p.Nil.B) {
+	if u.specMode > 0 && !u.noNilMerge && p.Cell != nil && p.Blk == nil && p.ElemIdx == nil && !(p.Nil.IsBool && !p.Nil.B) {
 		// specifications are total: reading through a nil pointer yields the
 		// zero value (so that "fresh(r.f)" holds when r is nil)
 		q := p
